@@ -1,6 +1,7 @@
 (* C18 property theorems (statements only; proofs are `exact`/short compositions of Proofs.v lemmas). *)
 From Coq Require Import List Bool Arith Lia.
 From EP Require Import Gen.C18Types C18.Model C18.Proofs.
+From EP Require Gen.C18Shape.
 Import ListNotations.
 
 (* the atomic type hierarchy the code uses (issubclass between the registered classes, after the name-equality test)
@@ -52,3 +53,9 @@ Example C18_nonvacuous :
   matches type_sub [] (Plus, IAny) = false /\ matches type_sub [] (Zero, IAtomic 0) = true /\
   st_sub type_sub (One, IAtomic 20) (Star, IAtomic 13) = true /\ st_sub type_sub (Opt, IAtomic 20) (One, IAtomic 13) = false.
 Proof. vm_compute. repeat split; reflexivity. Qed.
+
+(* the statements of /repo that the hand model mirrors are present in the source as read on this run (T-data,
+   harness/shape.py -> Gen/C18Shape.v) *)
+Theorem C18_source_shape : Gen.C18Shape.shape_ok = true.
+Proof. reflexivity. Qed.
+Print Assumptions C18_source_shape.
